@@ -73,6 +73,31 @@ func (c15) Enumerate(tier string, seed int64, yield func(string, core.Case) bool
 		}
 		return ex
 	}
+	if thorough { // every graph on 6 vertices (32768 edge sets), plain and with one extra clause
+		var e6 [][2]int
+		for a := 1; a <= 6; a++ {
+			for b := a + 1; b <= 6; b++ {
+				e6 = append(e6, [2]int{a, b})
+			}
+		}
+		ex6 := [][]int{{1, 2, 3, 4, 5, 6}, {1, -2}, {-1, 2, 3}, {-5, 6}}
+		for mask := 0; mask < 1<<uint(len(e6)); mask++ {
+			var f [][]int
+			for i, e := range e6 {
+				if mask>>uint(i)&1 == 1 {
+					f = append(f, []int{-e[0], -e[1]})
+				}
+			}
+			if !emit("graph6", f, 6) {
+				return
+			}
+			for _, x := range ex6 {
+				if !emit("graph6+1", append(copyCNF(f), x), 6) {
+					return
+				}
+			}
+		}
+	}
 	for mask := 0; mask < 1<<uint(len(edges)); mask++ {
 		var f [][]int
 		used := 0
